@@ -335,6 +335,67 @@ def r8_uniform_treatment(ctx):
                     'a subgraph is then planned differently from the same subgraph standing alone')
 
 
+def r12_shared_tables_append_only(ctx):
+  """operatorCodes and buffers are shared by every subgraph: operators of all
+  subgraphs refer to them by POSITION. Any function reachable from a registered
+  transformation may therefore only append to them; deleting, inserting in the
+  middle, reordering or clearing shifts the positions other subgraphs rely on
+  (re-indexing one subgraph cannot repair the others)."""
+  R = 'C19.R12'
+  ctx.rule(R, 'model-wide tables (operator codes, buffers) are append-only in every transformation: other subgraphs refer to them by position', floor=3)
+  cg = callgraph.get(ctx)
+  perf = ctx.repo.cls(PERF)
+  init = perf.methods['__init__']
+  roots = []
+  for n in ast.walk(init.node):
+    if isinstance(n, ast.Dict):
+      for v in n.values:
+        s = ctx.repo.resolve_expr(init.module, v) if isinstance(v, (ast.Name, ast.Attribute)) else None
+        if s is not None and s.kind == 'func':
+          roots.append(s.obj)
+  if len(roots) < 3:
+    raise index.AnalysisError(f'{R}: transformation registry not found in {init.fq}')
+  SHARED = ('op_codes', 'operatorCodes', 'buffers')
+
+  def shared_expr(f, e, depth=0):
+    """Does expression e (in function f) denote a model-wide table?"""
+    txt = ast.unparse(e)
+    if any(txt.endswith('.' + s) or txt == s for s in SHARED):
+      return True
+    if isinstance(e, ast.Name) and depth < 4:
+      if e.id in f.pos_params:
+        k = f.pos_params.index(e.id)
+        for caller_fq, sites in cg.sites.items():
+          for s in sites:
+            if any(c.fq == f.fq for c in s.callees):
+              arg = s.node.args[k] if k < len(s.node.args) else next((kw.value for kw in s.node.keywords if kw.arg == e.id), None)
+              if arg is not None and shared_expr(ctx.repo.func(caller_fq), arg, depth + 1):
+                return True
+      for d in defuse.own_assignments(f.node).get(e.id, []):
+        if d is not None and shared_expr(f, d, depth + 1):
+          return True
+    return False
+  for fq in sorted(cg.reachable([r.fq for r in roots])):
+    f = ctx.repo.func(fq)
+    if not f.module.short.startswith('transformations'):
+      continue
+    ctx.instance(R)
+    for n in common.walk_no_nested(f.node):
+      bad = None
+      if isinstance(n, ast.Delete):
+        for t in n.targets:
+          if isinstance(t, ast.Subscript) and shared_expr(f, t.value):
+            bad = (t.value, 'deletes from')
+      elif isinstance(n, ast.Call) and isinstance(n.func, ast.Attribute) and n.func.attr in ('pop', 'remove', 'clear', 'insert', 'sort', 'reverse') and shared_expr(f, n.func.value):
+        if not (n.func.attr == 'insert' and n.args and ast.unparse(n.args[0]).startswith('len(')):
+          bad = (n.func.value, f'calls .{n.func.attr}() on')
+      elif isinstance(n, ast.Assign) and isinstance(n.targets[0], ast.Subscript) and isinstance(n.targets[0].slice, ast.Slice) and shared_expr(f, n.targets[0].value):
+        bad = (n.targets[0].value, 'slice-assigns')
+      if bad is not None:
+        ctx.check(R, False, n, f, n, f'{f.name} {bad[1]} the model-wide table `{ast.unparse(bad[0])}`: operators of the other subgraphs address it by position and now point at the wrong entries')
+    ctx.check(R, True, f.node, f, f.name, '')
+
+
 def run(ctx):
   r1_performer_indices(ctx)
   r8_uniform_treatment(ctx)
@@ -343,6 +404,7 @@ def run(ctx):
   r6_shared_tables(ctx)
   r7_no_cross_subgraph_id_containers(ctx)
   _r3(ctx)
+  r12_shared_tables_append_only(ctx)
   shared.rule_performer_translation(ctx, 'C19.R9')
   shared.rule_performer_simulation(ctx, 'C19.R10')
   shared.rule_graph_rewrite_simulation(ctx, 'C19.R11', 'graph rewriting with two subgraphs and an interleaved plan: each subgraph is rewritten as if it stood alone')
